@@ -381,8 +381,8 @@ type mwUser struct {
 
 func mwUsers() []mwUser {
 	return []mwUser{
-		{NameID: "alice", Index: "si-alice", Attrs: []AttrSpec{{Name: "urn:oid:0.9.2342.19200300.100.1.1", Friendly: "uid", Values: []string{"zquid0qz"}}, {Name: "groups", Values: []string{"zqg0aqz", "zqg0bqz"}}, {Name: "groups", Values: []string{"zqg0cqz"}}}},
-		{NameID: "bob@example.com", Index: "si-bob", Attrs: []AttrSpec{{Name: "urn:oid:0.9.2342.19200300.100.1.1", Friendly: "uid", Values: []string{"zquid1qz"}}, {Name: "role", Friendly: "role", Values: []string{"admin"}}}},
+		{NameID: "Alice", Index: "si-alice", Attrs: []AttrSpec{{Name: "urn:oid:0.9.2342.19200300.100.1.1", Friendly: "uid", Values: []string{"zquid0qz"}}, {Name: "groups", Values: []string{"zqG0aqz", "ZQg0bqz"}}, {Name: "groups", Values: []string{"zqg0cqz"}}}},
+		{NameID: "Bob@Example.com", Index: "si-bob", Attrs: []AttrSpec{{Name: "urn:oid:0.9.2342.19200300.100.1.1", Friendly: "uid", Values: []string{"zquid1qz"}}, {Name: "role", Friendly: "role", Values: []string{"admin"}}}},
 		{NoNameID: true, Index: "si-anon", Attrs: []AttrSpec{{Name: "urn:oid:0.9.2342.19200300.100.1.1", Friendly: "uid", Values: []string{"zquid2qz"}}}},
 		{NameID: "carol", Index: "si-carol", Attrs: []AttrSpec{{Name: "role", Friendly: "role", Values: []string{"user"}}}},
 		{NameID: "dave", Index: "si-dave", Attrs: []AttrSpec{{Name: "role", Values: []string{"user", "admin"}}, {Name: "urn:x:other", Friendly: "other", Values: []string{"admin"}}}},
